@@ -64,6 +64,8 @@ def check(an: Analysis) -> None:
     for n in grouped + detached:
         call: ast.Call = n.ast  # type: ignore[assignment]
         coro = call.args[0] if call.args else None
+        if isinstance(coro, ast.Name) and (sv_ := deps.single_value(coro.id)) is not None:
+            coro = sv_  # `coroutine = function(*args, **kwargs)` built just before (e.g. by an inlined helper)
         if not (
             isinstance(coro, ast.Call)
             and fn_param is not None
